@@ -310,42 +310,41 @@ Proof.
     destruct (is_aggr_call (ECall p e args)); [apply aggr_args_ok; exact Hargs|exact I].
 Qed.
 
-(* ---- references re-pointed to a checked field *)
-Lemma relink_AP n d : APp d -> forall e, APp e -> APp (relink n d e).
+(* ---- resolveFieldNames: references carry positions of the query *)
+Lemma resolve_AP names : names_ok names -> forall e, APp e -> APp (resolve names e).
 Proof.
-  intros Hd. induction e using CheckerProofs.expr_induction; intros HA; cbn [relink]; try exact HA.
-  - destruct (AP_bin_inv _ _ _ _ HA) as (Hp & Hl & Hr). apply AP_bin; auto.
-  - destruct (AP_not_inv _ _ HA) as (Hp & Hr). apply AP_not; auto.
-  - destruct (AP_call_inv _ _ _ HA) as (Hp & Hn & Hargs). apply AP_call_intro; [exact Hp|exact Hn|].
+  intros Hn. induction e using CheckerProofs.expr_induction; intros HA; cbn [resolve]; try exact HA.
+  - destruct (AP_bin_inv _ _ _ _ HA) as (Hp & Hl & Hr). apply AP_bin; [exact Hp| |]; apply rewrite_name_AP; auto.
+  - destruct (AP_not_inv _ _ HA) as (Hp & Hr). apply AP_not; [exact Hp|]. apply rewrite_name_AP; auto.
+  - destruct (AP_call_inv _ _ _ HA) as (Hp & Hn' & Hargs). apply AP_call_intro; [exact Hp|exact Hn'|].
     clear HA. induction H as [|a l Ha Hl IH]; cbn [map]; [constructor|].
-    inversion Hargs; subst. constructor; auto.
-  - destruct (AP_ref_inv _ _ _ HA) as (Hp & Hd0).
-    destruct (String.eqb nm n); apply AP_ref_intro; auto.
+    inversion Hargs; subst. constructor; [apply rewrite_name_AP; auto|auto].
   - destruct (AP_list_inv _ _ HA) as (Hp & Hl). apply AP_list; [exact Hp|].
     clear HA. induction H as [|a l0 Ha Hl0 IH]; cbn [map]; [constructor|].
-    inversion Hl; subst. constructor; auto.
-  - destruct (AP_access_inv _ _ _ HA) as (Hp & Hl & Hf). apply AP_access; auto.
+    inversion Hl; subst. constructor; [apply rewrite_name_AP; auto|auto].
+  - destruct (AP_access_inv _ _ _ HA) as (Hp & Hl & Hf). apply AP_access; [exact Hp| |auto].
+    apply rewrite_name_AP; auto.
 Qed.
 
-Lemma relink_fields_ok n d fs : APp d -> names_ok fs -> names_ok (relink_fields n d fs).
+Lemma link_n_ok raw : names_ok raw -> forall k, names_ok (link_n k raw).
 Proof.
-  intros Hd H. unfold relink_fields, names_ok. induction H as [|nf l Hnf Hl IH]; cbn [map]; constructor.
-  - cbn [snd]. apply relink_AP; assumption.
-  - exact IH.
+  intros Hraw. induction k as [|k IH]; cbn [link_n]; [exact Hraw|].
+  unfold names_ok in *. rewrite Forall_map. eapply Forall_impl; [|exact Hraw].
+  intros nf Hnf. cbn [snd]. apply resolve_AP; assumption.
 Qed.
+
+Lemma link_ok raw : names_ok raw -> names_ok (link raw).
+Proof. intros H. unfold link. apply link_n_ok. exact H. Qed.
 
 (* ---- SelectStmt.ValidateFields *)
-Lemma validate_fields_ok : forall todo done,
-  names_ok done -> names_ok todo -> okr names_ok (validate_fields fo true done todo).
+Lemma validate_fields_ok : forall all todo,
+  names_ok all -> names_ok todo -> okr names_ok (validate_fields fo true all todo).
 Proof.
-  induction todo as [|[n f] todo IH]; intros done Hd Ht; cbn [validate_fields]; [exact Hd|].
+  intros all. induction todo as [|[n f] todo IH]; intros Ha Ht; cbn [validate_fields]; [constructor|].
   inversion Ht as [|? ? Hf Ht']; subst. cbn [snd] in Hf.
-  eapply okr_bind.
-  { apply check_ok; [|exact Hf]. cbn [c_names]. apply Forall_app. split; assumption. }
+  eapply okr_bind; [apply check_ok; [exact Ha|exact Hf]|].
   intros f2 Hf2. eapply okr_bind; [apply aggr_field_ok; exact Hf2|]. intros _ _.
-  apply IH; [|exact Ht']. apply Forall_app. split.
-  - destruct (has_name n done); [exact Hd|apply relink_fields_ok; assumption].
-  - constructor; [exact Hf2|constructor].
+  eapply okr_bind; [exact (IH Ha Ht')|]. intros r Hr. cbn [okr]. constructor; [exact Hf2|exact Hr].
 Qed.
 
 (* ---- findFieldInSelect for ORDER BY *)
@@ -416,11 +415,12 @@ Lemma check_select_ok fields w order :
   cstmt_ok (SSelect fields w order) -> okr cstmt_ok (check_select fo true fields w order).
 Proof.
   intros H. apply cstmt_ok_select in H. destruct H as (Hf & Hw & Ho). unfold check_select.
+  pose proof (link_ok _ Hf) as Hl. cbv zeta.
   eapply okr_bind; [apply check_order_ok; assumption|]. intros _ _.
-  eapply okr_bind; [apply check_ok; [exact Hf|exact Hw]|]. intros w1 Hw1.
-  pose proof (rewrite_name_AP _ _ Hf Hw1) as Hw2. cbv zeta.
+  eapply okr_bind; [apply check_ok; [exact Hl|exact Hw]|]. intros w1 Hw1.
+  pose proof (rewrite_name_AP _ _ Hl Hw1) as Hw2.
   eapply okr_bind; [apply where_bool_ok; exact Hw2|]. intros _ _.
-  eapply okr_bind; [apply validate_fields_ok; [apply names_ok_nil|exact Hf]|]. intros f2 Hf2.
+  eapply okr_bind; [apply validate_fields_ok; [exact Hl|exact Hf]|]. intros f2 Hf2.
   cbn [okr]. apply cstmt_ok_select. auto.
 Qed.
 
@@ -893,38 +893,24 @@ Qed.
 Lemma syn_pos_okr {A} (R : A -> Prop) (r : res A) p : okr Q R r -> syn_pos r = Some p -> Q p.
 Proof. destruct r as [a|[]| |]; cbn [okr syn_pos]; intros H E; try discriminate. inversion E; subst. exact H. Qed.
 
-Lemma set_nth_ok {A} (R : A -> Prop) i x (l : list A) : R x -> Forall R l -> Forall R (set_nth i x l).
+Lemma gcheck_loop_ok : forall items all raw,
+  names_ok Q all -> names_ok Q raw -> Forall (AP Q) items -> okr Q (fun _ : unit => True) (gcheck_loop fo all raw items).
 Proof.
-  intros Hx H. revert i. induction H as [|y l Hy Hl IH]; intros i; [destruct i; constructor|].
-  destruct i; cbn [set_nth]; constructor; auto.
-Qed.
-
-Lemma gcheck_loop_ok : forall items fs,
-  names_ok Q fs -> Forall (AP Q) items -> okr Q (names_ok Q) (gcheck_loop fo fs items).
-Proof.
-  induction items as [|it items IH]; intros fs Hfs Hit; cbn [gcheck_loop]; [exact Hfs|].
+  induction items as [|it items IH]; intros all raw Hall Hraw Hit; cbn [gcheck_loop]; [exact I|].
   inversion Hit as [|? ? Hi Hrest]; subst.
   assert (Hother :
-    okr Q (names_ok Q)
-      match named_idx 0 fs (item_name it) with
-      | None => gcheck_loop fo fs items
-      | Some i =>
-          match nth_error fs i with
-          | None => gcheck_loop fo fs items
-          | Some (n, f) =>
-              Value.bind (Checker.check fo true (Cctx fs false false) f)
-                (fun f2 => gcheck_loop fo (relink_fields n f2 (set_nth i (n, f2) fs)) items)
-          end
+    okr Q (fun _ : unit => True)
+      match get_named raw (item_name it) with
+      | None => gcheck_loop fo all raw items
+      | Some f =>
+          Value.bind (Checker.check fo true (Cctx all false false) f)
+            (fun _ => gcheck_loop fo all raw items)
       end).
-  { destruct (named_idx 0 fs (item_name it)) as [i|]; [|apply IH; assumption].
-    destruct (nth_error fs i) as [[n f]|] eqn:En; [|apply IH; assumption].
-    assert (Hf : AP Q f).
-    { unfold names_ok in Hfs. rewrite Forall_forall in Hfs. exact (Hfs _ (nth_error_In _ _ En)). }
-    eapply okr_bind; [apply check_ok; [exact Hfs|exact Hf]|]. intros f2 Hf2.
-    apply IH; [|exact Hrest]. apply relink_fields_ok; [exact Hf2|].
-    apply set_nth_ok; [exact Hf2|exact Hfs]. }
+  { destruct (get_named raw (item_name it)) as [f|] eqn:En; [|apply IH; assumption].
+    eapply okr_bind; [apply check_ok; [exact Hall|exact (get_named_AP Q _ _ _ Hraw En)]|]. intros _ _.
+    apply IH; assumption. }
   destruct it; try exact Hother.
-  eapply okr_bind; [apply check_ok; [exact Hfs|exact Hi]|]. intros _ _. apply IH; assumption.
+  eapply okr_bind; [apply check_ok; [exact Hall|exact Hi]|]. intros _ _. apply IH; assumption.
 Qed.
 
 Theorem real_hooks_ok : hooks_ok Q Q (real_hooks fo).
@@ -933,22 +919,23 @@ Proof.
   - intros ns fs p Hfs E. destruct (check_cycles ns fs) as [|q|] eqn:Ec; try discriminate.
     inversion E; subst. exact (check_cycles_err Q ns fs Hfs _ Ec).
   - intros ns fs e p Hfs He E. eapply syn_pos_okr; [|exact E].
-    apply find_order_field_ok; [apply names_ok_combine; exact Hfs|]. cbn [fst]. apply AP_epos. exact He.
-  - intros ns fs e p Hfs He E. unfold gitem_real in E.
-    pose proof (find_order_field_ok Q (combine ns fs) (epos e, item_name e) (names_ok_combine ns fs Hfs)
+    apply find_order_field_ok; [apply link_ok; apply names_ok_combine; exact Hfs|]. cbn [fst]. apply AP_epos. exact He.
+  - intros ns fs e p Hfs He E. unfold gitem_real in E. cbv zeta in E.
+    pose proof (link_ok Q _ (names_ok_combine ns fs Hfs)) as Hl.
+    pose proof (find_order_field_ok Q (link (combine ns fs)) (epos e, item_name e) Hl
                   (AP_epos Q e He)) as Hfo.
-    destruct (find_order_field (combine ns fs) (epos e, item_name e)) as [u|[q|q|]| |] eqn:Ef;
+    destruct (find_order_field (link (combine ns fs)) (epos e, item_name e)) as [u|[q|q|]| |] eqn:Ef;
       cbn [okr] in Hfo; try (inversion E; subst; exact Hfo);
       (destruct e; try discriminate;
        destruct e; cbn [is_atom_name] in E; try discriminate;
        try (inversion E; subst; exact (AP_epos Q _ He));
        destruct (call_name (EName pos0 s)) as [nm|]; try discriminate;
        destruct (aggr_rtype nm); try discriminate;
-       destruct (get_named (combine ns fs) (item_name (ECall pos (EName pos0 s) args))) as [d|] eqn:Eg;
+       destruct (get_named (link (combine ns fs)) (item_name (ECall pos (EName pos0 s) args))) as [d|] eqn:Eg;
        cbn [option_map] in E; try discriminate; inversion E; subst;
-       apply AP_epos; exact (get_named_AP Q _ _ _ (names_ok_combine ns fs Hfs) Eg)).
+       apply AP_epos; exact (get_named_AP Q _ _ _ Hl Eg)).
   - intros ns fs items p Hfs Hitems E. eapply syn_pos_okr; [|exact E].
-    apply gcheck_loop_ok; [apply names_ok_combine; exact Hfs|exact Hitems].
+    apply gcheck_loop_ok; [apply link_ok; apply names_ok_combine; exact Hfs|apply names_ok_combine; exact Hfs|exact Hitems].
 Qed.
 
 End HooksProv.
